@@ -612,15 +612,15 @@ PROPS = {
         "assumptions": ["the theorem is about Renamer::rename_with_raw_names; the ParsedPacket wrapper re-parses its result (accepted by the theorem) and asserts the EDNS summary is unchanged - that assert is covered by correspondence (C08 scripts), not by this theorem"],
     },
     "C08": {
-        "module": "DnsModel.Theorems.C08", "theorems": ["Dns.C08.consistent_view", "Dns.C08.consistent_counts", "Dns.C08.after_decompression", "Dns.C08.recompute_consistent", "Dns.C08.insert_answer_consistent", "Dns.C08.insert_authority_consistent", "Dns.C08.insert_additional_consistent", "Dns.C08.delete_consistent", "Dns.C08.set_ttl_consistent", "Dns.C08.set_ip_consistent", "Dns.C08.set_name_consistent", "Dns.C08.header_consistent", "Dns.C08.rename_fresh", "Dns.C08.question_read", "Dns.C08.PlainObj.pointerFree", "Dns.EdnsOK.matches_parse", "Dns.PlainObj.parse_info", "Dns.ednsOf_of_run", "Dns.ednsOK_replace", "Dns.ednsOK_remove", "Dns.ednsOK_remove_opt"],
+        "module": "DnsModel.Theorems.C08", "theorems": ["Dns.C08.consistent_view", "Dns.C08.consistent_counts", "Dns.C08.after_decompression", "Dns.C08.recompute_consistent", "Dns.C08.iter_uncompress_consistent", "Dns.C08.first_touch_consistent", "Dns.C08.insert_answer_consistent", "Dns.C08.insert_authority_consistent", "Dns.C08.insert_additional_consistent", "Dns.C08.delete_consistent", "Dns.C08.set_ttl_consistent", "Dns.C08.set_ip_consistent", "Dns.C08.set_name_consistent", "Dns.C08.header_consistent", "Dns.C08.rename_fresh", "Dns.C08.question_read", "Dns.C08.PlainObj.pointerFree", "Dns.EdnsOK.matches_parse", "Dns.PlainObj.parse_info", "Dns.ednsOf_of_run", "Dns.ednsOK_replace", "Dns.ednsOK_remove", "Dns.ednsOK_remove_opt"],
         "families": [{"name": "script-boundary", "quick": 0, "thorough": 0, "fixed": True}, {"name": "script", "quick": 2500, "thorough": 100000}],
         "oracle": oracle_c08, "nontrivial": nontrivial_script, "shrink": False,
         "rule": "scripts of 1-6 macro operations (open/advance/act/observe/advance, header setters, text insertion, question insertion, rename, recompute, cache reads) over accepted packets in 4 layouts with/without OPT and over empty(); state observed after every operation; non-trivial = distinct scripts with at least one successful mutating operation",
         "level": "proof",
-        "explanation": "theorems: the invariant Consistent (plain object = header + question + three lists of canonical record pieces with the section starts and counts that follow from them; may-contain-pointers flag cleared; question cache empty or right; EDNS summary = the one the additional pieces determine) implies (consistent_view) that the bytes are accepted by the parser and that a fresh parse reports exactly the object's section starts and EDNS summary (position and count of options, extended rcode, version, flags, payload size), that header counts = numbers of records, absent start iff empty section, bytes pointer-free, cached question = uncached question. It holds after decompression / recompute / the decompress-first step of any accepted packet and is preserved by insert (3 sections), delete (the OPT record included: summary cleared), set_rr_ttl, set_rr_ip, set_raw_name (after which the cursor still designates the record and next yields the one that followed), and the five header setters; a successful object-level rename leaves exactly the view of a fresh parse. "
+        "explanation": "theorems: the invariant Consistent (plain object = header + question + three lists of canonical record pieces with the section starts and counts that follow from them; may-contain-pointers flag cleared; question cache empty or right; EDNS summary = the one the additional pieces determine) implies (consistent_view) that the bytes are accepted by the parser and that a fresh parse reports exactly the object's section starts and EDNS summary (position and count of options, extended rcode, version, flags, payload size), that header counts = numbers of records, absent start iff empty section, bytes pointer-free, cached question = uncached question. It holds after decompression / recompute / in-place decompression through an iterator / the decompress-first step of any accepted packet and is preserved by insert (3 sections), delete (the OPT record included: summary cleared), set_rr_ttl, set_rr_ip, set_raw_name (after which the cursor still designates the record and next yields the one that followed), and the five header setters; a successful object-level rename leaves exactly the view of a fresh parse. "
                        "correspondence: state-machine model (packet object + one cursor) of every mutator; after every operation of every script the real object's bytes, public fields, cache and cursor equal the model's, and the oracle re-derives the view from the bytes alone",
         "assumptions": ["one preservation theorem per operation from any consistent state; sequences follow by chaining (each conclusion re-establishes the hypothesis), the chaining itself is not a Lean statement",
-                        "excluded by hypothesis (known findings, by design): question insertion/deletion (KF1, KF4), OPT as the target of set-name/set-TTL (KF5), clearing QR with answers present (KF3); in-place setters on a still-compressed object (KF2) and in-place decompression through an iterator are covered by the script correspondence only"],
+                        "excluded by hypothesis (known findings, by design): question insertion/deletion (KF1, KF4), OPT as the target of set-name/set-TTL (KF5), clearing QR with answers present (KF3); in-place setters on a still-compressed object (KF2) are covered by the script correspondence only"],
     },
     "C09": {
         "module": "DnsModel.Theorems.C09", "theorems": ["Dns.C09.insert_exact_answer", "Dns.C09.insert_exact_authority", "Dns.C09.insert_exact_additional", "Dns.C09.delete_exact", "Dns.C09.set_ttl_exact", "Dns.C09.set_ip_exact", "Dns.C09.set_name_exact", "Dns.C09.header_exact", "Dns.C09.first_touch", "Dns.C09.set_name_flagged", "Dns.C09.delete_flagged", "Dns.PlainObj.replace_at", "Dns.resize_write", "Dns.piece_shape"],
@@ -634,14 +634,14 @@ PROPS = {
                         "excluded by hypothesis (known findings, by design): OPT as the target of set-name/set-TTL (KF5), delete/insert on the question (KF1, KF4), clearing QR with answers present (KF3); in-place setters on a still-compressed object (KF2) and rename/recompute at object level are covered by C07 / C08.rename_fresh and the script correspondence"],
     },
     "C10": {
-        "module": "DnsModel.Theorems.C10", "theorems": ["Dns.C10.insert_size_limit", "Dns.C10.insert_failure_plain", "Dns.C10.insert_too_large", "Dns.C10.delete_void_unchanged", "Dns.C10.set_name_invalid", "Dns.C10.set_name_arg_total", "Dns.C10.set_name_void", "Dns.C10.set_ip_failure", "Dns.C10.rename_failure"],
+        "module": "DnsModel.Theorems.C10", "theorems": ["Dns.C10.insert_size_limit", "Dns.C10.insert_failure_plain", "Dns.C10.insert_too_large", "Dns.C10.delete_void_unchanged", "Dns.C10.set_name_invalid", "Dns.C10.set_name_arg_total", "Dns.C10.set_name_void", "Dns.C10.set_ip_failure", "Dns.C10.rename_failure", "Dns.C10.set_name_too_large"],
         "families": [{"name": "script-big", "quick": 0, "thorough": 0, "fixed": True}, {"name": "script-fail", "quick": 2500, "thorough": 100000}, {"name": "script", "quick": 500, "thorough": 20000}],
         "oracle": oracle_c10, "nontrivial": lambda c, a: "err:" in a, "shrink": False,
         "rule": "scripts biased to failing arguments (ill-formed / over-long names, tombstone cursors, malformed and out-of-range record texts, second question, overflowing renames); non-trivial = distinct scripts in which at least one operation failed",
         "level": "proof",
-        "explanation": "theorems: for every object (any size, compressed or not), section and record bytes a successful insert_rr leaves at most 8192 bytes, and a packet that would exceed the limit is refused with PacketTooLarge; on a pointer-free object every failing insert_rr (too large, second question, 65535 records) returns the object given; delete / set_raw_name through the cursor of a deleted record report VoidRecord and return object and cursor as they were; an invalid or over-long name is refused by the (total) checker before any byte moves; set_rr_ip with the wrong family or on a non-address record returns the object unchanged; a rename that overflows a name returns the object unchanged. An unchanged object trivially still satisfies C08. "
+        "explanation": "theorems: for every object (any size, compressed or not), section and record bytes a successful insert_rr leaves at most 8192 bytes, and a packet that would exceed the limit is refused with PacketTooLarge; on a pointer-free object every failing insert_rr (too large, second question, 65535 records) returns the object given; delete / set_raw_name through the cursor of a deleted record report VoidRecord and return object and cursor as they were; an invalid or over-long name is refused by the (total) checker before any byte moves; set_rr_ip with the wrong family or on a non-address record returns the object unchanged; a rename that overflows a name returns the object unchanged; set_raw_name with a name that would push the packet past 65535 bytes reports PacketTooLarge and only empties the question cache. An unchanged object trivially still satisfies C08. "
                        "correspondence: scripts biased to failing arguments and packets around/beyond 8192 and 65535 bytes; after every failed call the decoded message and the object view must equal those before",
-        "assumptions": ["partial: not covered by a theorem (script correspondence only): malformed record text at the object API (refused by synthesis, C13.excluded_is_error, before insertion is attempted), set_raw_name refused for size (returns the object with its question cache emptied), failing insertion into a still-compressed object (decompressed first: bytes change, decoded message does not)"],
+        "assumptions": ["partial: not covered by a theorem (script correspondence only): malformed record text at the object API (refused by synthesis, C13.excluded_is_error, before insertion is attempted), failing insertion into a still-compressed object (decompressed first: bytes change, decoded message does not)"],
     },
     "C11": {
         "module": "DnsModel.Theorems.C11", "theorems": ["Dns.C11.walk_delete", "Dns.C11.second_delete", "Dns.C11.delete_void_untouched", "Dns.C11.emptied_absent", "Dns.C11.still_accepted", "Dns.C11.plain_of_accepted", "Dns.C11.first_delete", "Dns.delWalk_refines", "Dns.PlainObj.delete_at", "Dns.absWalk_terminates", "Dns.absWalk_sublist", "Dns.absWalk_deleted_gone", "Dns.absWalk_yields_survivors", "Dns.absWalk_perm"],
@@ -763,7 +763,7 @@ MANIFEST_TEXT = {
             "note": NOTE, "technique": "Lean 4 proof (representation invariant incl. EDNS summary as a function of the pieces, preserved by every mutator) + step-wise model/implementation correspondence on operation scripts + reference decoder oracle"},
     "C09": {"text": 'Lean theorems on the piece-list representation of pointer-free objects: insert appends exactly the given record and raises only that count; delete removes exactly the record under the cursor and lowers only that count; set_rr_ttl / set_rr_ip replace exactly the TTL / address bytes of that record; set_raw_name replaces exactly its owner name for growing, shrinking and equal lengths; header setters touch bytes 0-3 only; everything else (other records and their order, question, other header fields, EDNS summary fields) is equal; on a still-flagged (possibly compressed) object the first set_raw_name/delete first turns it into the plain object of the canonical pieces with the cursor carried to the same record. Exclusions are the by-design findings KF1-KF5. Same scripts as C08: after every operation the decoded message must be the message before with exactly the specified change (abstract list operation on the decoded message).',
             "note": NOTE, "technique": 'Lean 4 proof (piece shape lemmas, replace/delete/insert on the piece lists, resize-then-write byte lemma, decompress-first step) + step-wise correspondence + abstract-message oracle'},
-    "C10": {"text": 'Lean theorems: insertion never yields more than 8192 bytes for any object and reports PacketTooLarge instead; a failing insert_rr on a pointer-free object (too large, second question, full section), delete/set_raw_name through a tombstoned cursor, an invalid or over-long name, set_rr_ip with the wrong family, and an overflowing rename all return the object as it was. Scripts biased to failing arguments and packets around/beyond 8192 and 65535 bytes: every failed call must leave the decoded message unchanged and the object consistent. Not proved (correspondence only): malformed text at the object API, set_raw_name refused for size, failures after the decompress-first step.',
+    "C10": {"text": 'Lean theorems: insertion never yields more than 8192 bytes for any object and reports PacketTooLarge instead; a failing insert_rr on a pointer-free object (too large, second question, full section), delete/set_raw_name through a tombstoned cursor, an invalid or over-long name, set_rr_ip with the wrong family, and an overflowing rename all return the object as it was. Scripts biased to failing arguments and packets around/beyond 8192 and 65535 bytes: every failed call must leave the decoded message unchanged and the object consistent. Not proved (correspondence only): malformed text at the object API, failures after the decompress-first step.',
             "note": NOTE, "technique": 'Lean 4 proof (order of check and modify in the model of each mutator) + step-wise correspondence + abstract-message oracle'},
     "C11": {"text": "Lean theorems: the cursor protocol on a pointer-free packet object (void cursor restarts the section with the current count, live cursor advances, delete = shrink by the record length + void the cursor + decrement the count + clear the section start at zero) refines an abstract walk-and-delete machine on the list of the section's records, for the three record sections, both public walks and every stream of choices; the list machine terminates ((n+1)^2+n+1 steps), removes exactly the chosen records, never yields a deleted record again, yields every survivor, leaves the survivors in order; the object stays a plain object (count = number of records, emptied section absent, bytes accepted, section starts as a fresh parse reports them), other sections/question/header fields untouched; a second delete reports VoidRecord and changes nothing; the first deletion on a still-compressed object decompresses, carries the cursor and removes exactly that record. Not composed into one statement across the decompression step; question section (KF1) and OPT-skipping walk over an additional section holding OPT: correspondence only. Exhaustive deletion walks (every subset of sections of size 0..5, four sections, two layouts, OPT absent/first/last) compare the real iterators with the model and the walk oracle.",
             "note": NOTE, "technique": "Lean 4 proof (piece-list representation of pointer-free objects, refinement of the cursor protocol to a list machine, list lemmas) + exhaustive small-scope correspondence + walk oracle"},
